@@ -63,7 +63,8 @@ Definition py_neg (a : sval) : sval := if is_ev a then ev_call D_neg a a else ma
 (** ---- operands of array arithmetic ---- *)
 Inductive operand :=
 | KNum (x : Q)                    (* a number *)
-| KMeas (m : nat)                 (* a single Measurement *)
+| KMeas (m : nat)                 (* ONE quantity: a Measurement (from a number or from repeated
+                                     readings) or a calculated value; numpy must treat it as a scalar *)
 | KList (l : list Q)              (* a list of numbers *)
 | KNd (l : list Q)                (* a numpy array of numbers *)
 | KArr (k n : nat).               (* MeasurementArray number k with n elements *)
